@@ -346,7 +346,97 @@ func eachMacLen(emit func(xferCase)) {
 	}
 }
 
+// eachQuestionSpelling: the request spells the zone name differently from the sender (upper / lower /
+// mixed case either way round, \DDD and \c escapes): every short shape, three compositions, with and
+// without TSIG, every sender. The transfer must end exactly at the closing SOA all the same.
+func eachQuestionSpelling(emit func(xferCase)) {
+	spell := [][2]string{ // zone as served, zone as asked
+		{"example.", "EXAMPLE."}, {"example.", "Example."}, {"Example.ORG.", "example.org."}, {"EXAMPLE.ORG.", "example.ORG."},
+		{"example.", "ex\\097mple."}, {"example.", "\\e\\088ample."}, {"z.", "Z."},
+	}
+	for _, sh := range shapes(4) {
+		n := len(sh.flat())
+		for _, sizes := range someSizes(n) {
+			for _, ts := range []*tsigSpec{nil, enumKey} {
+				for k, sp := range spell {
+					for _, sender := range []string{"harness", "library", "libout"} {
+						if sender != "harness" && k%3 != 0 {
+							continue
+						}
+						c := sh
+						c.Zone, c.QName = sp[0], sp[1]
+						c.Sizes, c.Tsig, c.Sender = sizes, ts, sender
+						c.Trailer = sender == "harness"
+						emit(c)
+					}
+				}
+			}
+		}
+	}
+}
+
+var enumKey2 = &tsigSpec{KeyName: "other.", Alg: dns.HmacSHA1, Secret: []byte("another-secret-of-the-receiver")}
+
+// eachOtherKey: the receiver holds two keys, the transfer is requested with the first; every envelope
+// in turn is signed - chained and timed correctly - with the second key (algorithm of the request / its
+// own), or with the right key under another algorithm (classed only). Plus the fault-free transfer.
+func eachOtherKey(emit func(xferCase)) {
+	for _, sh := range shapes(3) {
+		n := len(sh.flat())
+		for _, sizes := range someSizes(n) {
+			c := sh
+			c.Sizes, c.Tsig, c.OtherKey, c.Sender, c.Trailer = sizes, enumKey, enumKey2, "harness", true
+			emit(c)
+			for j := range sizes {
+				for v := 0; v < 3; v++ {
+					c.Fault = faultSpec{Kind: "otherkey", Env: j, K: j, Val: v}
+					if c.Fault.otherKeyMust() && pbt.Known(knownOtherKey) {
+						pbt.Excluded(knownOtherKey)
+						continue
+					}
+					emit(c)
+				}
+			}
+		}
+	}
+}
+
+// eachReuse: two or three transfers with ONE dns.Transfer value (a fresh connection each time, or - with
+// the library as sender - successive requests on one connection), with and without TSIG; the last one
+// fault-free or cut in the middle.
+func eachReuse(emit func(xferCase)) {
+	for _, sh := range shapes(4) {
+		n := len(sh.flat())
+		sz := someSizes(n)
+		for _, sizes := range [][]int{sz[0], sz[len(sz)-1]} {
+			for _, ts := range []*tsigSpec{nil, enumKey} {
+				c := sh
+				c.Sizes, c.Tsig = sizes, ts
+				if c.reuseTimersClass2() && pbt.Known(knownReuse) {
+					pbt.Excluded(knownReuse)
+					continue
+				}
+				for reuse := 1; reuse <= 2; reuse++ {
+					h := c
+					h.Sender, h.Reuse = "harness", reuse
+					emit(h)
+					h.Fault = faultSpec{Kind: "cut", K: streamLen(h) / 2}
+					emit(h)
+				}
+				for _, seq := range [][]string{{"xfr", "xfr"}, {"xfr", "query", "xfr"}} {
+					l := c
+					l.Sender, l.Reuse, l.Rounds = "library", 1, seq
+					emit(l)
+				}
+			}
+		}
+	}
+}
+
 func init() {
+	pbt.RegisterEnum(pbt.Enum[xferCase]{Name: "other-configured-key", Each: eachOtherKey, Check: checkXfer})
+	pbt.RegisterEnum(pbt.Enum[xferCase]{Name: "reused-transfer", Each: eachReuse, Check: checkXfer})
+	pbt.RegisterEnum(pbt.Enum[xferCase]{Name: "question-spelling", Each: eachQuestionSpelling, Check: checkXfer})
 	pbt.RegisterEnum(pbt.Enum[xferCase]{Name: "mac-length", Exhaustive: true, Each: eachMacLen, Check: checkXfer})
 	pbt.RegisterEnum(pbt.Enum[xferCase]{Name: "dial-and-bad-request", Each: eachDialAndBadRequest, Check: checkXfer})
 	pbt.RegisterEnum(pbt.Enum[xferCase]{Name: "slow-producer", Each: eachSlowProducer, Check: checkXfer})
@@ -358,6 +448,45 @@ func init() {
 	pbt.RegisterEnum(pbt.Enum[xferCase]{Name: "all-partitions", Exhaustive: true, Each: eachPartition, Check: checkXfer})
 	pbt.RegisterEnum(pbt.Enum[xferCase]{Name: "cut-every-octet", Exhaustive: true, Each: eachCut, Check: checkXfer})
 	pbt.RegisterEnum(pbt.Enum[xferCase]{Name: "alter-every-octet", Exhaustive: true, Each: eachAlter, Check: checkXfer})
+
+	// known finding (round 7): an envelope signed with another key of the receiver's key set passes.
+	// Breaker's input: TsigSecret = {axfr.: s1, other.: s2}, request signed with axfr., the single
+	// envelope [SOA, A, SOA] signed with other. (its secret, over the request MAC).
+	pbt.Probe(knownOtherKey, func() error {
+		c := xferCase{Mode: "axfr", Zone: "example.", QID: 4660, Serial: 7, Recs: []recSpec{{T: "A", Owner: "www", V: 1}}, Sizes: []int{3}, Sender: "harness",
+			Tsig:     &tsigSpec{KeyName: "axfr.", Alg: dns.HmacSHA256, Secret: []byte("secret-of-the-axfr-key")},
+			OtherKey: &tsigSpec{KeyName: "other.", Alg: dns.HmacSHA256, Secret: []byte("secret-of-the-other-key")},
+			Fault:    faultSpec{Kind: "otherkey", Env: 0, Val: 0}}
+		if why := c.valid(); why != "" {
+			return nil
+		}
+		r, p, err := runHarnessSender(c)
+		if err != nil {
+			return nil // the harness could not run the history: nothing known about the finding
+		}
+		if err := checkFaulty(c, p, r); err != nil {
+			return pbt.Errf("Transfer.TsigSecret = {axfr., other.}, AXFR requested with key axfr., the only envelope [SOA A SOA] signed with key other.: %v", err)
+		}
+		return nil
+	})
+
+	// known finding (round 7): Transfer.tsigTimersOnly survives the transfer; the next request made with
+	// the same Transfer value is digested timers-only, which no RFC 8945 server accepts.
+	pbt.Probe(knownReuse, func() error {
+		c := xferCase{Mode: "axfr", Zone: "example.", QID: 4660, Serial: 7, Recs: []recSpec{{T: "A", Owner: "www", V: 1}}, Sizes: []int{3}, Sender: "harness",
+			Tsig: &tsigSpec{KeyName: "axfr.", Alg: dns.HmacSHA256, Secret: []byte("secret-of-the-axfr-key")}, Reuse: 1}
+		if why := c.valid(); why != "" {
+			return nil
+		}
+		r, _, err := runHarnessSender(c)
+		if err == nil {
+			err = checkComplete(c, r)
+		}
+		if err != nil {
+			return pbt.Errf("two signed AXFRs [SOA A SOA] with one dns.Transfer value, a fresh connection each: %v", err)
+		}
+		return nil
+	})
 
 	// known finding: serial comparison without RFC 1982 arithmetic
 	pbt.Probe(knownWrap, func() error {
